@@ -23,6 +23,7 @@ import (
 	"time"
 
 	"github.com/frankkopp/FrankyGo/internal/config"
+	"github.com/frankkopp/FrankyGo/internal/movegen"
 	"github.com/frankkopp/FrankyGo/internal/moveslice"
 	"github.com/frankkopp/FrankyGo/internal/position"
 	"github.com/frankkopp/FrankyGo/internal/search"
@@ -191,7 +192,11 @@ func runLifeScript(sc *LifeScript, seed int64, watchdog time.Duration) *LifeResu
 	config.Settings.Search.TTSize = 8
 	config.Settings.Search.UseBook = false
 	cap := &lifeCapture{rec: rec}
-	// objects are constructed as the protocol loop constructs them, on the controller goroutine
+	// objects are constructed as the protocol loop constructs them, on the controller goroutine: a position and a move
+	// generator first (their constructors set up package-level loggers lazily - in the engine that has happened long
+	// before the first search goroutine runs), then the search
+	_ = position.NewPosition()
+	_ = movegen.NewMoveGen()
 	s := search.NewSearch()
 	s.SetUciHandler(cap)
 	res := &LifeResult{ID: sc.ID, Name: sc.Name}
